@@ -196,6 +196,17 @@ def rules_on_disk(tree):
     return False
 
 
+def _mask(path):
+    """File names may carry a process id, a counter or a time stamp (temporary files, numbered backups): digit runs are masked so that
+    two runs of the same case describe the same tree."""
+    import re as _re
+    return _re.sub(r"\d+", "#", path)
+
+
+def tree_hash(tree):
+    return hashlib.sha1(repr(sorted((_mask(p), hashlib.sha1(b).hexdigest()) for p, b in tree.items())).encode()).hexdigest()[:12]
+
+
 def judge(history, before_files, before_class, root):
     """Oracle on one resulting tree (root is consumed: the re-run happens in place)."""
     viol = []
@@ -211,7 +222,7 @@ def judge(history, before_files, before_class, root):
             ok = b in contents
         if not ok:
             viol.append(("user-content-lost", p))
-    th = hashlib.sha1(repr(sorted((p, hashlib.sha1(b).hexdigest()) for p, b in tree.items())).encode()).hexdigest()[:12]
+    th = tree_hash(tree)
     if _failed(before_class):
         # the budget did not classify at all before the command (e.g. no settings.yaml): only content preservation applies
         return viol, th, True
@@ -352,10 +363,10 @@ def _check_case(case, b):
                              "case": {"budget": case["budget"], "plan": plan}})
         finally:
             shutil.rmtree(root, ignore_errors=True)
-    init_h = hashlib.sha1(repr(sorted((p, hashlib.sha1(c).hexdigest()) for p, c in init_tree.items())).encode()).hexdigest()[:12]
-    done_h = hashlib.sha1(repr(sorted((p, hashlib.sha1(c).hexdigest()) for p, c in done_tree.items())).encode()).hexdigest()[:12]
+    init_h = tree_hash(init_tree)
+    done_h = tree_hash(done_tree)
     nontrivial = len(trees - {init_h, done_h})
     return {"evals": evals, "nontrivial": nontrivial, "outcomes": sorted(outcomes), "violations": viol,
             "extra": {"crash_points": sum(1 for p in plans if "crash_after" in p), "oserror_points": sum(1 for p in plans if "oserror_at" in p),
                       "effects_logged": len(info["log"])},
-            "sample_repr": {"history": history, "budget": b["name"], "effects": [f"{x['k']}:{x['kind']}:{x['path']}" for x in info["log"]]}}
+            "sample_repr": {"history": history, "budget": b["name"], "effects": [f"{x['k']}:{x['kind']}:{_mask(x['path'])}" for x in info["log"]]}}
